@@ -1607,8 +1607,7 @@ def tags(c, r):
 ESSENTIAL_TAGS = (["sites-scan", "masked-site-guarded", "ufunc-out", "ufunc-noout", "ufunc-badmask-rejected", "ufunc-badout-rejected",
                    "poisoned-out-buffer", "heap-perturbed", "threads-8"]
                   + ["value:" + n for n in ROUTINES] + ["masked-out-cells:" + n for n in sorted(MASKED_ROUTINES)]
-                  + ["alloc-site-fill", "alloc-site-tile", "alloc-site-enum", "alloc-site-recv", "cache-scan-clean",
-                     "wbr-random", "wbr-tile", "wbr-enum", "wbr-gap", "wbr-oob-rejected", "wbr-all-written",
+                  + ["cache-scan-clean", "wbr-random", "wbr-tile", "wbr-enum", "wbr-gap", "wbr-oob-rejected", "wbr-all-written",
                      "wbr-cell-left-unwritten", "overwrite-probe-changed", "file-rewritten-at-same-path"]
                   + ["overwrite-probe:" + n for n in ROUTINES] + ["value:" + n for n in ("ra.load", "load_as_concatenated")])
 
